@@ -21,6 +21,8 @@ type sxView struct {
 	// anyOrder: loop normalisation may also present a descending visit of all indices as a range (the rule using this view does not
 	// depend on the order in which the elements are visited: a predicate over all of them, a commutative integer fold)
 	anyOrder bool
+	// heapQuiet: the function under analysis writes nothing that existed before the call and runs no user code (set by runPaths)
+	heapQuiet bool
 }
 
 func (c *Ctx) view(fd *ast.FuncDecl) *sxView {
